@@ -440,6 +440,23 @@ def stepC14 (op obs : String) : String :=
          if obs != want then mkVerdict (some s!"integer-not-canonical want={want}") (if obs != m then some m else none)
          else if obs != m then s!"DIVERGE model={m}" else "OK")
   | ["urlquery", dir, input] => stepUrlQuery dir input obs
+  | ["csvdelim", "rt", opt] =>
+    -- `[["a","b"]] | to_csv({comma: opt})` and `… | from_csv({comma: opt})`
+    (match bytesOfHex opt with
+     | none => "BADOP csvdelim"
+     | some ob =>
+       let text := fun (c : Char) => hx (bytesOfChars (['a', c, 'b', '\n']))
+       let mTo := match FqModel.Csv.toCsvDelim ob with | some c => text c | none => "err"
+       let mFrom := match FqModel.Csv.toCsvDelim ob, FqModel.Csv.fromCsvDelim ob with
+         | some _, some _ => "[[s61,s62]]"
+         | _, _ => "err"
+       match words obs with
+       | ["err"] => if mTo == "err" then "OK" else s!"DIVERGE model={mTo} {mFrom}"
+       | [t, f] =>
+         let pf := if t != "err" && f != "err" && f != "[[s61,s62]]" then some s!"to_csv/from_csv disagree on the delimiter: {f}" else none
+         let dv := if t != mTo || f != mFrom then some s!"{mTo} {mFrom}" else none
+         mkVerdict pf dv
+       | _ => "BADOP obs")
   | ["csv", dir, input] => stepCsv dir input obs
   | ["xmlarr", "rt", input] => stepXmlArr input obs
   | ["xmlseq", "rt", input] => stepXmlSeq input obs
